@@ -412,6 +412,32 @@ def run(ck: Check):
         ck.count("boundary_size_cases")
         if not ok:
             ck.violation(dict(clause="incremental-equals-batch", regime="boundary-sizes", n_ref=n_ref), dict(what="incremental result differs from scipy.stats.ks_2samp(reference, window) (default method) or the update failed", n_ref=n_ref, window_size=w, shift=shift, got=got, expected=(float(e.statistic), float(e.pvalue))))
+    # the array handed to fit() belongs to the caller: fit() must leave it as it is, and what the caller does to it
+    # AFTERWARDS (refilling a pre-allocated buffer with the next chunk) must not reach the detector (deterministic)
+    for w in (4, 7):
+        buf = np.array([((37 * i) % 23) / 23.0 for i in range(23)])
+        before = buf.copy()
+        stream = [0.3 + ((11 * i) % 13) / 13.0 for i in range(w + 6)]
+        bad = None
+        try:
+            d = IncrementalKSTest(window_size=w)
+            d.fit(X=buf)
+            if not np.array_equal(buf, before):
+                bad = "fit() changed the caller's array (its order or its values)"
+            for t, v in enumerate(stream, 1):
+                if t == w + 2:
+                    buf[:] = 5.0 + np.arange(len(buf))   # the caller reuses its buffer
+                r, _ = d.update(value=v)
+                if t >= w and bad is None:
+                    e = _ks2(before, stream[t - w : t])
+                    if r is None or not close(float(r.statistic), float(e.statistic), 1e-12, 1e-12):
+                        bad = f"step {t}: statistic {None if r is None else float(r.statistic)} != batch test against the reference as it was at fit() ({float(e.statistic)})"
+        except Exception as e:  # noqa: BLE001
+            bad = f"raised {e!r}"
+        ck.case(dict(kind="reference-array-owned-by-caller", window_size=w), nontrivial=True, key=repr(("refown", w)))
+        ck.count("reference_owned_by_caller_cases")
+        if bad:
+            ck.violation(dict(clause="incremental-equals-batch", scenario="reference-array-owned-by-caller"), dict(what="the reference is the array's contents at fit(): " + bad, window_size=w, reference=before.tolist(), stream=stream))
     exprs = [
         "(fix go (s : iks_st FloatA) (vs : list float) : list (option Z) := match vs with [] => [] | v :: r => match iks_update s v with "
         "Ok (s', o) => option_map fst o :: go s' r | Raise _ => [] end end) "
